@@ -128,7 +128,12 @@ func app(sort Sort, op string, args ...Term) Term {
 }
 
 // App builds an application of an arbitrary function symbol.
-func App(sort Sort, op string, args ...Term) Term { return app(sort, op, args...) }
+func App(sort Sort, op string, args ...Term) Term {
+	if len(args) == 0 {
+		return Term{S: op, Sort: sort} // a nullary function is a constant
+	}
+	return app(sort, op, args...)
+}
 
 // Sym builds a reference to a declared symbol.
 func Sym(name string, sort Sort) Term { return Term{S: name, Sort: sort} }
